@@ -75,12 +75,18 @@ def run_job(job):
             wseed = proto.H("c01w", su, job["shard"], job["seed"], wi)
             # random tapes: one RNG shared by all parties; separate client/server RNGs that happen to be seeded identically
             # (so that nonces / key-share seeds of the two sides coincide); constant-byte tapes
-            tapes = ["shared", "shared", "same-seed", "shared", "constant-0x01", "shared", "same-seed"][wi % 7]
+            tapes = ["shared", "shared", "same-seed", "zero-envelope-nonce", "constant-0x01", "shared", "same-seed", "ff-per-call"][wi % 8]
+            via = ["new", "literal", "default", "clone"][(wi // 2) % 4]      # how the caller builds the parameter structs
+            rng_fin = None
             if tapes == "shared":
                 rng = rng_c = rng_s = s.rng("r", wseed)
             elif tapes == "same-seed":
                 rng_c, rng_s = s.rng("rc", wseed), s.rng("rs", wseed)
                 rng = rng_s
+            elif tapes in ("zero-envelope-nonce", "ff-per-call"):
+                # a tape per call: the registration finish (whose only draw is the envelope nonce) reads 32 zero / 0xff bytes
+                rng = rng_c = rng_s = s.rng("r", wseed)
+                rng_fin = s.rng("rf", wseed, (b"\x00" if tapes.startswith("zero") else b"\xff") * 32)
             else:
                 rng_c, rng_s = s.rng("rc", wseed, b"\x01" * 4096), s.rng("rs", wseed, b"\x01" * 4096)
                 rng = rng_s
@@ -111,13 +117,17 @@ def run_job(job):
                 viol.append({"sig": "C01 setup rebuilt around the same key reports another public key", "what": "%s: %s vs %s" % (su, rr.pk, spk)})
             stats["by_class"]["setup:" + route] = stats["by_class"].get("setup:" + route, 0) + 1
             stats["by_class"]["tapes:" + tapes] = stats["by_class"].get("tapes:" + tapes, 0) + 1
+            stats["by_class"]["params:" + via] = stats["by_class"].get("params:" + via, 0) + 1
             # registration: "DEFAULT" identity = absent at registration, explicit spelling at login
             ru = None if idu[1] == "DEFAULT" else idu[1]
             rs = None if ids_[1] == "DEFAULT" else ids_[1]
-            reg = proto.register(s, rng_c, "S", pw[1], cred[1], id_u=ru, id_s=rs, ksf=ksf, wire=wire, tag="g")
+            if wi % 9 == 4 and idu[1] != "DEFAULT":
+                ids_ = idu                       # equal explicit client and server identities are legitimate
+                rs = ru
+            reg = proto.register(s, rng_c, "S", pw[1], cred[1], id_u=ru, id_s=rs, ksf=ksf, wire=wire, tag="g", rng_finish=rng_fin, params_via=via)
             desc = (pw[0], cred[0], idu[0], ids_[0], ctx[0], wire, str(ksf), route)
             case = {"suite": su, "world": wi, "pw": pw[0], "cred": cred[0], "id_u": idu[0], "id_s": ids_[0],
-                    "ctx": ctx[0], "wire": wire, "ksf": ksf, "setup_route": route, "tapes": tapes}
+                    "ctx": ctx[0], "wire": wire, "ksf": ksf, "setup_route": route, "tapes": tapes, "params_via": via}
             evals += len(reg.steps)
             if not reg.ok:
                 viol.append({"sig": "C01 registration step failed %s" % reg.failed_at,
@@ -131,7 +141,7 @@ def run_job(job):
                 # both parties start the login from identically seeded generators (draws of equal sizes then coincide)
                 rng_c, rng_s = s.rng("rc", proto.H(wseed, "login")), s.rng("rs", proto.H(wseed, "login"))
             lg = proto.login(s, rng_c, rng_s, "S", reg.file_h, pw[1], cred[1], ctx_c=ctx[1], ctx_s=ctx[1], id_u_c=lu, id_s_c=ls,
-                             id_u_s=lu, id_s_s=ls, ksf=ksf, wire=wire, tag="l")
+                             id_u_s=lu, id_s_s=ls, ksf=ksf, wire=wire, tag="l", params_via=via)
             evals += len(lg.steps)
             stats["worlds"] += 1
             if not lg.ok:
